@@ -395,3 +395,70 @@ func (g *histGen) observe(b *blockSpec, receipts []*pb.Receipt) {
 }
 
 func short8(k *sim.Key) string { return k.Addr.String()[:8] }
+
+// genGroupEpisode builds a whole one-to-many episode against the primary node's current counters:
+// block 1 begins all children, block 2 carries their receipts (all success, or successes around one failure).
+func (g *histGen) genGroupEpisode() []*blockSpec {
+	t, w := g.t, g.w
+	srcs := []struct{ chain, svc string }{{"chainC", "s1"}, {"chainB", "s1"}, {"chainA", "s1"}}
+	src := srcs[rapid.IntRange(0, len(srcs)-1).Draw(t, "epSrc")]
+	from := sim.FullID(w.BxhID, src.chain, src.svc)
+	var dests []string
+	for _, c := range []string{"chainA", "chainB", "chainC"} {
+		for _, s := range sim.StdServices[c] {
+			if !(c == src.chain && s == src.svc) {
+				dests = append(dests, sim.FullID(w.BxhID, c, s))
+			}
+		}
+	}
+	n := rapid.IntRange(3, len(dests)).Draw(t, "epSize")
+	dests = rapid.Permutation(dests).Draw(t, "epDests")[:n]
+	ic := w.Interchain(from)
+	grp := &pb.StringUint64Map{}
+	for _, d := range dests {
+		idx := uint64(1)
+		if ic != nil {
+			idx = ic.InterchainCounter[d] + 1
+		}
+		grp.Keys = append(grp.Keys, d)
+		grp.Vals = append(grp.Vals, idx)
+	}
+	proof := []byte("1")
+	T := rapid.SampledFrom([]int64{0, 2, 3, 30}).Draw(t, "epT")
+	b1 := &blockSpec{}
+	for i, d := range dests {
+		ib := &pb.IBTP{From: from, To: d, Index: grp.Vals[i], TimeoutHeight: T, Proof: sim.ProofHash(proof), Type: pb.IBTP_INTERCHAIN, Group: grp}
+		b1.txs = append(b1.txs, &txSpec{tx: w.IBTP(sim.ChainAdmins[src.chain], ib, proof), kind: "group", desc: fmt.Sprintf("episode begin %s->%s idx=%d T=%d", from, d, grp.Vals[i], T)})
+	}
+	w.TS += 10
+	b1.ts = w.TS
+	b2 := &blockSpec{}
+	failAt := -1
+	if rapid.Bool().Draw(t, "epFail") {
+		failAt = rapid.IntRange(0, n-1).Draw(t, "epFailAt")
+	}
+	order := rapid.Permutation(intsUpTo(n)).Draw(t, "epOrder")
+	for _, i := range order {
+		typ := pb.IBTP_RECEIPT_SUCCESS
+		if i == failAt {
+			typ = pb.IBTP_RECEIPT_FAILURE
+		}
+		if rapid.IntRange(0, 6).Draw(t, "epSkip") == 0 {
+			continue
+		}
+		ib := &pb.IBTP{From: from, To: dests[i], Index: grp.Vals[i], Proof: sim.ProofHash(proof), Type: typ, Group: grp}
+		b2.txs = append(b2.txs, &txSpec{tx: w.IBTP(sim.Outsiders[0], ib, proof), kind: "group", desc: fmt.Sprintf("episode report %s->%s %s", from, dests[i], typ)})
+	}
+	w.TS += 10
+	b2.ts = w.TS
+	g.kinds["group-episode"]++
+	return []*blockSpec{b1, b2}
+}
+
+func intsUpTo(n int) []int {
+	out := make([]int, n)
+	for i := range out {
+		out[i] = i
+	}
+	return out
+}
